@@ -222,43 +222,136 @@ func isASCIISpace(b byte) bool {
 	return b == ' ' || b == '\t' || b == '\n' || b == '\v' || b == '\f' || b == '\r'
 }
 
-// strings.TrimSpace: exact on strings whose boundary bytes are ASCII; a non-ASCII byte
-// at a trimming boundary (Unicode spaces are multi-byte) is not modelled.
-func M_strings_TrimSpace(s string) string {
-	i, j := 0, len(s)
-	for i < j && s[i] < 0x80 && isASCIISpace(s[i]) {
-		i++
+const runeError = 0xFFFD
+
+func isCont(b byte) bool { return b >= 0x80 && b <= 0xBF }
+
+// DecodeRune: unicode/utf8.DecodeRuneInString (pure byte logic)
+func DecodeRune(s string) (rune, int) {
+	if len(s) == 0 {
+		return runeError, 0
 	}
-	if i < j && s[i] >= 0x80 {
-		Unmodelled("TrimSpace: non-ASCII byte at the trimming boundary")
+	b0 := s[0]
+	if b0 < 0x80 {
+		return rune(b0), 1
 	}
-	for j > i && s[j-1] < 0x80 && isASCIISpace(s[j-1]) {
-		j--
+	if b0 >= 0xC2 && b0 <= 0xDF {
+		if len(s) >= 2 && isCont(s[1]) {
+			return rune(b0&0x1F)<<6 | rune(s[1]&0x3F), 2
+		}
+		return runeError, 1
 	}
-	if j > i && s[j-1] >= 0x80 {
-		Unmodelled("TrimSpace: non-ASCII byte at the trimming boundary")
+	if b0 >= 0xE0 && b0 <= 0xEF {
+		if len(s) < 3 {
+			return runeError, 1
+		}
+		lo, hi := byte(0x80), byte(0xBF)
+		if b0 == 0xE0 {
+			lo = 0xA0
+		}
+		if b0 == 0xED {
+			hi = 0x9F
+		}
+		if s[1] < lo || s[1] > hi || !isCont(s[2]) {
+			return runeError, 1
+		}
+		return rune(b0&0x0F)<<12 | rune(s[1]&0x3F)<<6 | rune(s[2]&0x3F), 3
 	}
-	return s[i:j]
+	if b0 >= 0xF0 && b0 <= 0xF4 {
+		if len(s) < 4 {
+			return runeError, 1
+		}
+		lo, hi := byte(0x80), byte(0xBF)
+		if b0 == 0xF0 {
+			lo = 0x90
+		}
+		if b0 == 0xF4 {
+			hi = 0x8F
+		}
+		if s[1] < lo || s[1] > hi || !isCont(s[2]) || !isCont(s[3]) {
+			return runeError, 1
+		}
+		return rune(b0&0x07)<<18 | rune(s[1]&0x3F)<<12 | rune(s[2]&0x3F)<<6 | rune(s[3]&0x3F), 4
+	}
+	return runeError, 1
 }
 
-// strings.Fields on ASCII strings
+// DecodeLastRune: unicode/utf8.DecodeLastRuneInString
+func DecodeLastRune(s string) (rune, int) {
+	end := len(s)
+	if end == 0 {
+		return runeError, 0
+	}
+	start := end - 1
+	if s[start] < 0x80 {
+		return rune(s[start]), 1
+	}
+	lim := end - 4
+	if lim < 0 {
+		lim = 0
+	}
+	for start--; start >= lim; start-- {
+		if !isCont(s[start]) {
+			break
+		}
+	}
+	if start < 0 {
+		start = 0
+	}
+	r, size := DecodeRune(s[start:end])
+	if start+size != end {
+		return runeError, 1
+	}
+	return r, size
+}
+
+// unicode.IsSpace
+func isSpaceRune(r rune) bool {
+	if r < 0x80 {
+		return isASCIISpace(byte(r))
+	}
+	return r == 0x85 || r == 0xA0 || r == 0x1680 || (r >= 0x2000 && r <= 0x200a) || r == 0x2028 || r == 0x2029 || r == 0x202f || r == 0x205f || r == 0x3000
+}
+
+// strings.TrimSpace, exact (Unicode white space, invalid UTF-8 included)
+func M_strings_TrimSpace(s string) string {
+	i := 0
+	for i < len(s) {
+		r, n := DecodeRune(s[i:])
+		if !isSpaceRune(r) {
+			break
+		}
+		i += n
+	}
+	t := s[i:]
+	j := len(t)
+	for j > 0 {
+		r, n := DecodeLastRune(t[:j])
+		if !isSpaceRune(r) {
+			break
+		}
+		j -= n
+	}
+	return t[:j]
+}
+
+// strings.Fields, exact
 func M_strings_Fields(s string) []string {
 	var out []string
 	i := 0
 	for i < len(s) {
-		if s[i] >= 0x80 {
-			Unmodelled("Fields: non-ASCII byte")
-		}
-		if isASCIISpace(s[i]) {
-			i++
+		r, n := DecodeRune(s[i:])
+		if isSpaceRune(r) {
+			i += n
 			continue
 		}
 		j := i
-		for j < len(s) && !isASCIISpace(s[j]) {
-			if s[j] >= 0x80 {
-				Unmodelled("Fields: non-ASCII byte")
+		for j < len(s) {
+			r2, n2 := DecodeRune(s[j:])
+			if isSpaceRune(r2) {
+				break
 			}
-			j++
+			j += n2
 		}
 		out = append(out, s[i:j])
 		i = j
